@@ -58,6 +58,13 @@ theorem size_view_is_suffix (len : α → Nat) (k : Nat) (fs0 : FS α) (ops : Li
   rw [view_eq_specView r, ← hall]
   exact specView_suffix k _
 
+/-- **C17, size clause 1, "no duplicates".**  If what was there plus what was written has no
+duplicate line, neither has what is on disk. -/
+theorem size_no_duplicates (len : α → Nat) (k : Nat) (fs0 : FS α) (ops : List (Op α))
+    (hk : Keeps k ops) (hnd : (view k fs0 ++ written false ops).Nodup) :
+    (view k (run len ⟨{}, fs0⟩ ops).fs).Nodup :=
+  (size_view_is_suffix len k fs0 ops hk).sublist.nodup hnd
+
 /-- **C17, size clause 2 (what is kept, file by file).**  The files on disk are exactly
 the newest `k+1` segments of the history cut at the points where the live file had
 reached `max_bytes` (`specRun`): `path` is the newest segment, `path.j` the `j`-th newest;
@@ -174,7 +181,7 @@ theorem time_write_files_line_in_its_period (toTm : Bool → Int → Tm) (s : TS
       fs'.recs = s.fs.recs ++ [⟨n, effSec clock ts, l⟩] ∧
       Filed toTm s.h.unit s.h.mod s.h.useLocal ⟨n, effSec clock ts, l⟩ := by
   obtain ⟨h', fs', n, h1, h2, h3, _⟩ := twrite_spec inv clock ts l hopen hlo
-  exact ⟨h', fs', n, h1, h2, h3⟩
+  exact ⟨h', fs', n, h1, h2, h3.1⟩
 
 /-- **C17, time clause, whole histories, one configuration.**  Starting from an empty
 directory, for every zone function, unit, `rotate_mod ≥ 1`, zone mode and every history
@@ -192,8 +199,33 @@ theorem time_every_line_in_its_period_file (toTm : Bool → Int → Tm) (u : Rot
   obtain ⟨s', h1, new, h2, h3, h4⟩ := trun_filed toTm u m loc ops {} lo inv ht hc
     (fun ho => by simp at ho)
   refine ⟨s', h1, ?_, ?_⟩
-  · intro r hr; rw [h2] at hr; exact h3 r (by simpa using hr)
+  · intro r hr; rw [h2] at hr; exact (h3 r (by simpa using hr)).1
   · rw [h2]; simpa using h4
+
+/-- for `rotate_mod = 1` a period has exactly one possible file name -/
+theorem nameOf_eq_of_period_one (u : RotUnit) (a b : Tm)
+    (h : periodOf u 1 a = periodOf u 1 b) : nameOf u a = nameOf u b := by
+  cases u <;> simp_all [periodOf, nameOf]
+
+/-- **C17, time clause, `rotate_mod = 1`: the file is *the* file of the period.**  With
+`rotate_mod = 1` every record is in the file whose name is exactly its timestamp
+truncated to the unit (in the zone mode) — also across restarts.  (For `rotate_mod > 1`
+the code names a file after the first message of the period, so a restart inside a
+period starts a second file for it; both are "named for the period".) -/
+theorem time_file_name_is_truncated_timestamp (toTm : Bool → Int → Tm) (u : RotUnit)
+    (loc : Bool) (ops : List (TOp β)) (lo : Int) (ht : Timely lo ops) (hc : CfgConst u 1 loc ops) :
+    ∃ s', trun toTm {} ops = .ok s' ∧
+      ∀ r ∈ s'.fs.recs, r.name = nameOf u (toTm loc r.sec) := by
+  have inv : TInv toTm ({} : TSt β) lo :=
+    ⟨fun n hn => by simp at hn, fun ho => by simp at ho⟩
+  obtain ⟨s', h1, new, h2, h3, _⟩ := trun_filed toTm u 1 loc ops {} lo inv ht hc
+    (fun ho => by simp at ho)
+  refine ⟨s', h1, ?_⟩
+  intro r hr
+  rw [h2] at hr
+  obtain ⟨⟨_, hp⟩, hid⟩ := h3 r (by simpa using hr)
+  rw [← hid]
+  exact nameOf_eq_of_period_one u _ _ hp
 
 /-- **C17, time clause, whole histories, reconfiguration at restarts.**  As above, but
 every init may choose another unit / `rotate_mod ≥ 1` / zone mode: record by record,
